@@ -12,7 +12,7 @@ from core import fr
 class C05(core.Check):
     pid = 'C05'
     unproved = [
-        'engine level, "every executed order is in exactly one trade" and "the registry holds EXACTLY the non-final orders" over whole runs: theorems at operation level (executed_recorded_once, active_registry, and activeIn_history: after ANY history of submissions, executions, cancellations and registry clean-ups every active order is listed in the registry of its symbol), on real sessions decided by the tracer oracle — the registry reset of the engine after `_execute_cancel` is covered by C10.execute_cancel_leaves_nothing_active, not yet composed with it; the run-level theorems (run_lifecycle_step/skip, final_stays_final_*) cover the status, symbol/price and registry-shrinks clauses for every strategy',
+        'engine level, "every executed order is in exactly one trade" and "the registry holds EXACTLY the non-final orders" over whole runs: theorems at operation level (executed_recorded_once, active_registry, and activeIn_history: after ANY history of submissions, executions, cancellations and registry clean-ups every active order is listed in the registry of its symbol), on real sessions decided by the tracer oracle; the registry reset of the engine after `_execute_cancel` keeps the invariant given what C10.execute_cancel_leaves_nothing_active proves (activeIn_reset); lifting the invariant through every function of the strategy layer is not done; the run-level theorems (run_lifecycle_step/skip, final_stays_final_*) cover the status, symbol/price and registry-shrinks clauses for every strategy',
     ]
     rule = ('correspondence: operation sequences on the real Order/Exchange/Position/OrdersState/ClosedTrades objects and the '
             'Lean accounts model with repeated execute/cancel calls on the same order, cancel-all interleaved with active '
